@@ -1074,3 +1074,89 @@ Section Same.
       destruct (set_prop ct (next s1) n0 f v); injection H as <- _; exact HG.
   Qed.
 End Same.
+
+(* ---- the statements of Props/C09.v ---- *)
+Section Theorems.
+  Variables (ct : ctable) (strict : bool) (ms : methods).
+  Notation V := (visit ct strict ms).
+
+  Lemma root_in_universe n : In n (universe ms n).
+  Proof. unfold universe. simpl. apply in_or_app. left. apply subterms_self. Qed.
+
+  Theorem transform_total n s : wf_tree ct n = true -> exists s' r, transform ct strict ms n s = Some (s', r).
+  Proof. intros Hwf. apply visit_total; auto. Qed.
+
+  Theorem transform_content fuel n s s' r :
+    wf_tree ct n = true -> coherent (universe ms n) -> below (next s) (universe ms n) ->
+    V fuel n s = Some (s', r) -> sres_of r = rewrite ct strict ms n.
+  Proof.
+    intros Hwf Hc Hb H. destruct (visit_Inv ct strict ms n fuel n s s' r (root_in_universe n) Hwf H) as (_ & _ & H3 & _).
+    apply H3; auto.
+  Qed.
+
+  Theorem identity_unchanged fuel n s s' r :
+    wf_tree ct n = true -> changed ct strict ms n = false -> V fuel n s = Some (s', r) ->
+    next s' = next s /\ exists n', r = RNode n' /\ addr n' = addr n /\
+                        (coherent (universe ms n) -> below (next s) (universe ms n) -> n' = n).
+  Proof.
+    intros Hwf Hch H. destruct (visit_same ct strict ms fuel n s s' r Hwf Hch H) as (En & n' & -> & Ea).
+    split; auto. exists n'. repeat split; auto. intros Hc Hb.
+    destruct (visit_Inv ct strict ms n fuel n s s' _ (root_in_universe n) Hwf H) as (_ & Hp & _).
+    destruct (Hp n' eq_refl n' (subterms_self n')) as [Hu|Hf].
+    - apply Hc; auto. apply root_in_universe.
+    - lia.
+  Qed.
+
+  Theorem ancestors_fresh fuel n s s' r :
+    wf_tree ct n = true -> below (next s) (universe ms n) -> changed ct strict ms n = true ->
+    V fuel n s = Some (s', r) ->
+    not_same n r = true /\
+    (generic_like ct strict ms (cls n) = true -> forall n', r = RNode n' -> next s <= addr n' < next s').
+  Proof.
+    intros Hwf Hb Hch H.
+    destruct (visit_Inv ct strict ms n fuel n s s' r (root_in_universe n) Hwf H) as (_ & _ & _ & H4 & H5).
+    split; auto.
+  Qed.
+
+  Theorem input_frame fuel n s s' n' :
+    wf_tree ct n = true -> V fuel n s = Some (s', RNode n') ->
+    (forall y, In y (subterms n') -> In y (universe ms n) \/ next s <= addr y < next s') /\
+    (coherent (universe ms n) -> below (next s) (universe ms n) ->
+     forall y x, In y (subterms n') -> In x (universe ms n) -> addr y = addr x -> y = x).
+  Proof.
+    intros Hwf H.
+    destruct (visit_Inv ct strict ms n fuel n s s' _ (root_in_universe n) Hwf H) as (_ & Hp & _).
+    split; [exact (Hp n' eq_refl)|].
+    intros Hc Hb y x Hy Hx E. destruct (Hp n' eq_refl y Hy) as [Hu|Hf].
+    - apply Hc; auto.
+    - specialize (Hb x Hx). lia.
+  Qed.
+
+  Lemma rkeep_app a b : rkeep (a ++ b) = rkeep a ++ rkeep b.
+  Proof. unfold rkeep. apply flat_map_app. Qed.
+
+  Theorem removal_order :
+    (forall k n s, wf_tree ct n = true -> generic_like ct strict ms (cls n) = true ->
+       V (S k) n s = gv_tr (V k) n (logc s (addr n) (dispatch ct strict (has_method ms) (cls n))))
+    /\ (forall nm l rs, fnew (nm, (ShMany, l)) rs = (nm, (ShMany, rkeep rs)))
+    /\ (forall rs1 rs2, rkeep (rs1 ++ RNone :: rs2) = rkeep rs1 ++ rkeep rs2)
+    /\ (forall rs1 x rs2, rkeep (rs1 ++ RNode x :: rs2) = rkeep rs1 ++ x :: rkeep rs2)
+    /\ (forall nm l, fnew (nm, (ShOne, l)) [RNone] = (nm, (ShNone, [])))
+    /\ (forall nm l x, fnew (nm, (ShOne, l)) [RNode x] = (nm, (ShOne, [x]))).
+  Proof.
+    split; [|repeat split; intros; try reflexivity; rewrite rkeep_app; reflexivity].
+    intros k n s Hwf Hg. destruct (wf_tree_root ct n Hwf) as [Hroot _].
+    cbn [visit]. rewrite !(generic_visit_tr ct (V k) n _ Hroot).
+    unfold generic_like, rule in Hg.
+    destruct (dispatch ct strict (has_method ms) (cls n)) as [m|]; auto.
+    destruct (assoc m ms) as [[]|]; try discriminate; reflexivity.
+  Qed.
+
+  Theorem visit_dispatches fuel n s s' r :
+    V fuel n s = Some (s', r) ->
+    exists l, rev (calls s') = rev (calls s) ++ (addr n, dispatch ct strict (has_method ms) (cls n)) :: l.
+  Proof.
+    intros H. destruct (visit_logs ct strict ms fuel n s s' r H) as [l El].
+    exists (rev l). rewrite El, rev_app_distr. simpl. rewrite <- app_assoc. reflexivity.
+  Qed.
+End Theorems.
